@@ -7,12 +7,24 @@
     response of a session and the one after each Cache Reset) replaces the cache's set at its
     End of Data; the answer to a Serial Query adds announcements and removes withdrawals;
     every other PDU (Serial Notify, Error Report, Router Key, unknown types) changes nothing.
-  * a snapshot is judged for a session when the bytes delivered so far are exactly a sequence of
-    whole well-formed PDUs ending in End of Data: then the VRPs installed for that cache's
-    address and the recorded serial must be the fold's ("progress": the End of Data — and
-    everything before it, including PDU types the client does not use — was consumed);
-    a session fed only well-formed PDUs must still be up; a session that has ended (EOF,
-    cancellation, or the client gave up) must have left no VRP.
+  * every row of the ROA table is attributed (by the harness, through the `Arc` it carries) to the
+    session whose connection installed it; a row of no started session is an error
+    (`vrp-of-unknown-session`).  Sessions on one cache address (hard reset, two caches on one
+    host) are therefore judged separately.
+  * at EVERY snapshot, for every live session fed only well-formed PDUs so far:
+    the VRPs it had at its last End of Data, minus the withdrawals it has received since, must
+    still be shown for it (`vrps-of-cache-lost`) — nothing another cache's session does, and no
+    half-received response of its own, may remove them;
+    if the bytes delivered end exactly at a PDU boundary, every PDU has been consumed
+    (`pdus-not-consumed`, the receive counters of `RpkiState`) — progress, including on PDU types
+    the client does not use and after the last End of Data;
+    if that last PDU is an End of Data, the recorded serial is its serial
+    (`end-of-data-not-processed`) and the VRPs shown for the session are exactly the fold's
+    (`installed-differs-from-fold`, `installed-duplicate-vrp`).
+  * a session fed only well-formed PDUs, none of them an Error Report (after which the client
+    may give up, RFC 8210 §10), must still be up (`session-dropped-on-well-formed-stream`);
+    a session that has ended (EOF, cancellation, or the client gave up) is reported as ended
+    and has left no VRP (`session-did-not-end`, `vrps-remain-after-session-end`).
 -/
 import Rbgp.Rtr.Model
 import Rbgp.Rpki.Spec
@@ -46,6 +58,9 @@ structure Fold where
   inReset : Bool := true          -- the current response answers a Reset Query
   ok : Bool := true               -- no withdrawal inside a reset response (outside the quantifier)
   lastEod : Option Nat := none    -- serial of the End of Data, if that was the last PDU
+  floor : List Vrp := []          -- VRPs that must still be installed whatever the client does with
+                                  -- an unfinished response: the set at the last End of Data minus
+                                  -- the withdrawals received since (nothing once a Cache Reset came)
   deriving Repr
 
 def prefixFold (f : Fold) (v : Vrp) (announce : Bool) : Fold :=
@@ -53,18 +68,38 @@ def prefixFold (f : Fold) (v : Vrp) (announce : Bool) : Fold :=
     if announce then { f with pending := sIns f.pending v, lastEod := none }
     else { f with ok := false, lastEod := none }
   else if announce then { f with installed := sIns f.installed v, lastEod := none }
-  else { f with installed := sRem f.installed v, lastEod := none }
+  else { f with installed := sRem f.installed v, lastEod := none, floor := sRem f.floor v }
 
 def foldPdu (c : Src) (f : Fold) : Pdu → Fold
   | .p4 _ flags len ml addr asn => prefixFold f (vrpOf c ⟨.v4, addr, len⟩ ml asn) (flags % 2 = 1)
   | .p6 _ flags len ml addr asn => prefixFold f (vrpOf c ⟨.v6, addr, len⟩ ml asn) (flags % 2 = 1)
   | .eod _ _ serial =>
-      if f.inReset then { f with installed := f.pending, pending := [], inReset := false, lastEod := some serial }
-      else { f with lastEod := some serial }
-  | .creset _ => { f with inReset := true, pending := [], lastEod := none }
+      if f.inReset then
+        { f with installed := f.pending, pending := [], inReset := false, lastEod := some serial, floor := f.pending }
+      else { f with lastEod := some serial, floor := f.installed }
+  | .creset _ => { f with inReset := true, pending := [], lastEod := none, floor := [] }
   | _ => { f with lastEod := none }
 
 def specFold (c : Src) (pdus : List Pdu) : Fold := pdus.foldl (foldPdu c) {}
+
+/-- PDU kinds the client keeps a receive counter for (everything it uses) -/
+def cntPdu : Pdu → Nat
+  | .cr .. => 1 | .p4 .. => 1 | .p6 .. => 1 | .eod .. => 1 | .notify .. => 1 | .creset _ => 1 | .err .. => 1
+  | _ => 0
+
+def seenOf : List Pdu → Nat
+  | [] => 0
+  | p :: ps => cntPdu p + seenOf ps
+
+/-- some byte of an Error Report has been delivered: the client may give the session up
+    (RFC 8210 §10: most error codes are fatal) -/
+def errTouched : List Pdu → Nat → Bool
+  | [], _ => false
+  | p :: ps, n =>
+      if n = 0 then false
+      else match p with
+        | .err .. => true
+        | _ => if n < pduLen p then false else errTouched ps (n - pduLen p)
 
 /-- split a stream at `delivered` bytes: the whole conforming PDUs before that point, the number
     of further bytes delivered, and whether some byte of a non-conforming PDU was delivered -/
@@ -96,12 +131,14 @@ def sStep (σ : List SSlot) : Step → List SSlot
   | .send sid n => σ.map fun x =>
       if x.sid = sid ∧ x.started then { x with delivered := min (x.delivered + n) (total x.pdus) } else x
   | .soft _ => σ
+  | .wfail _ => σ
   | .close sid _ => σ.map fun x => if x.sid = sid ∧ x.started then { x with closed := true } else x
   | .snap => σ
 
-/-- the VRPs the snapshot shows for a cache address, labelled with the session `c` judged -/
+/-- the VRPs the snapshot attributes to session `c` (rows are labelled with the session whose
+    connection installed them) -/
 def shown (s : Snap) (c : Src) : List Vrp :=
-  (s.roas.filter (fun r => r.1 = c.cache)).map (fun r => vrpOf c r.2.1 r.2.2.1 r.2.2.2)
+  (s.roas.filter (fun r => r.1 = c.arc)).map (fun r => vrpOf c r.2.2.1 r.2.2.2.1 r.2.2.2.2)
 
 def nodupB : List Vrp → Bool
   | [] => true
@@ -110,38 +147,43 @@ def nodupB : List Vrp → Bool
 def sameSet (a b : List Vrp) : Bool := a.all (· ∈ b) && b.all (· ∈ a)
 
 def ended (s : Snap) (x : SSlot) : Bool := x.closed || s.done.contains x.sid
-def live (s : Snap) (x : SSlot) : Bool := x.started && !ended s x
 
 /-- judgement of one session at a snapshot -/
-def checkSlot (σ : List SSlot) (s : Snap) (x : SSlot) : Option String :=
+def checkSlot (s : Snap) (x : SSlot) : Option String :=
   if !x.started then none
   else if x.closed && !s.done.contains x.sid then some "session-did-not-end"
+  else if ended s x then
+    if !(shown s ⟨x.cache, x.sid⟩).isEmpty then some "vrps-remain-after-session-end" else none
   else
-    let others := σ.filter (fun y => y.sid ≠ x.sid && y.cache = x.cache && live s y)
-    if ended s x then
-      if others.isEmpty && !(shown s ⟨x.cache, x.sid⟩).isEmpty then some "vrps-remain-after-session-end"
-      else none
+    let (done, left, dirty) := split x.pdus x.delivered
+    if dirty then none
     else
-      let (done, left, dirty) := split x.pdus x.delivered
-      if dirty then none
+      let f := specFold ⟨x.cache, x.sid⟩ done
+      if !f.ok then none
+      -- whatever another cache's session does, and wherever this one stands in a response
+      else if !(f.floor.all (· ∈ shown s ⟨x.cache, x.sid⟩)) then some "vrps-of-cache-lost"
+      else if left ≠ 0 then none
+      -- exactly at a PDU boundary: every PDU so far has been consumed
+      else if !(s.sess.any (fun e => e.1 = x.sid && e.2.2.2.1 = seenOf done)) then some "pdus-not-consumed"
       else
-        -- (not ended ⇒ the client has not given up, as required on a well-formed stream)
-        let f := specFold ⟨x.cache, x.sid⟩ done
-        if left ≠ 0 ∨ !f.ok then none
-        else
-          match f.lastEod with
-          | none => none
-          | some serial =>
-              if !(s.sess.any (fun e => e.1 = x.sid && e.2.1 = serial)) then some "end-of-data-not-processed"
-              else if !others.isEmpty then none
-              else if !nodupB (shown s ⟨x.cache, x.sid⟩) then some "installed-duplicate-vrp"
-              else if !sameSet (shown s ⟨x.cache, x.sid⟩) f.installed then some "installed-differs-from-fold"
-              else none
+        match f.lastEod with
+        | none => none
+        | some serial =>
+            if !(s.sess.any (fun e => e.1 = x.sid && e.2.1 = serial)) then some "end-of-data-not-processed"
+            else if !nodupB (shown s ⟨x.cache, x.sid⟩) then some "installed-duplicate-vrp"
+            else if !sameSet (shown s ⟨x.cache, x.sid⟩) f.installed then some "installed-differs-from-fold"
+            else none
 
-/-- a session that gave up although everything delivered was well-formed -/
+/-- a session that gave up although everything delivered was well-formed and no Error Report came -/
 def checkDropped (s : Snap) (x : SSlot) : Option String :=
   if x.started && !x.closed && s.done.contains x.sid && !(split x.pdus x.delivered).2.2
+     && !errTouched x.pdus x.delivered
   then some "session-dropped-on-well-formed-stream" else none
+
+/-- every row belongs to a started session of the script -/
+def checkRows (σ : List SSlot) (s : Snap) : Option String :=
+  if s.roas.all (fun r => σ.any (fun x => x.sid = r.1 && x.started && x.cache = r.2.1)) then none
+  else some "vrp-of-unknown-session"
 
 def firstSome : List (Option String) → Option String
   | [] => none
@@ -149,7 +191,7 @@ def firstSome : List (Option String) → Option String
   | none :: rest => firstSome rest
 
 def checkSnap (σ : List SSlot) (s : Snap) : Option String :=
-  firstSome (σ.map (checkDropped s) ++ σ.map (checkSlot σ s))
+  firstSome (checkRows σ s :: (σ.map (checkDropped s) ++ σ.map (checkSlot s)))
 
 inductive Verdict where
   | ok
@@ -169,6 +211,7 @@ def checkFrom : Nat → List SSlot → List Step → List Snap → Verdict
   | i, σ, .start sid :: rest, obs => checkFrom (i + 1) (sStep σ (.start sid)) rest obs
   | i, σ, .send sid n :: rest, obs => checkFrom (i + 1) (sStep σ (.send sid n)) rest obs
   | i, σ, .soft sid :: rest, obs => checkFrom (i + 1) (sStep σ (.soft sid)) rest obs
+  | i, σ, .wfail sid :: rest, obs => checkFrom (i + 1) (sStep σ (.wfail sid)) rest obs
   | i, σ, .close sid e :: rest, obs => checkFrom (i + 1) (sStep σ (.close sid e)) rest obs
 
 def initSlots (c : Case) : List SSlot := c.streams.map fun d => { sid := d.sid, cache := d.cache, pdus := d.pdus }
